@@ -137,12 +137,28 @@ def _depth(a: Optional[AV]) -> int:
     return d
 
 
+# qualifiers implied by the class of a value: {qualifier: set of type names}; filled by sa.model.install
+IMPLIED_QUALS = {}
+
+
+def has_qual(a: AV, q) -> bool:
+    if q in a.quals:
+        return True
+    tys = IMPLIED_QUALS.get(q)
+    return bool(tys) and a.types is not None and bool(a.types) and a.types <= tys
+
+
 def _join_quals(a: AV, b: AV) -> frozenset:
     if EMPTYQ in a.quals and EMPTYQ not in b.quals:
         return b.quals
     if EMPTYQ in b.quals and EMPTYQ not in a.quals:
         return a.quals
-    return a.quals & b.quals
+    out = a.quals & b.quals
+    if IMPLIED_QUALS and (a.quals or b.quals):
+        extra = {q for q in (a.quals | b.quals) if q in IMPLIED_QUALS and has_qual(a, q) and has_qual(b, q)}
+        if extra:
+            out = out | extra
+    return out
 
 
 def is_bottom(a: AV) -> bool:
